@@ -235,3 +235,67 @@ def legal_nodes(machine, cfg_ids) -> Optional[str]:
             if any(c.type != "history" and c.id not in cfg for c in n.states.values()):
                 return "parallel-missing-region:" + sid
     return None
+
+
+# ---------------------------------------------------------------------------
+# reference target resolution over the generator's tree (independent of the library's resolver)
+# ---------------------------------------------------------------------------
+def _descend(node, segments):
+    cur = node
+    for seg in segments:
+        nxt = None
+        for c in cur.children:
+            if c.key == seg:
+                nxt = c
+                break
+        if nxt is None:
+            return None
+        cur = nxt
+    return cur
+
+
+def _resolve_once(tree, ref, target):
+    """One application of the documented resolution order (resolver.py docstring) from `ref`."""
+    root = tree.root
+    if target.startswith("#"):
+        segs = target[1:].split(".")
+        if segs[0] == root.key:
+            r = _descend(root, segs[1:])
+            if r is not None:
+                return r
+        for n in tree.order:
+            if n.custom_id == segs[0]:
+                return n if len(segs) == 1 else _descend(n, segs[1:])
+        return None
+    if target == ".":
+        return ref.parent or ref
+    if target.startswith("."):
+        return _descend(ref.parent or ref, target[1:].split("."))
+    segs = target.split(".")
+    cur = ref
+    while cur is not None:
+        r = _descend(cur, segs)
+        if r is not None:
+            return r
+        if len(segs) == 1 and segs[0] == cur.key:
+            return cur
+        cur = cur.parent
+    return None
+
+
+def resolve_reference(tree, source, target):
+    """State a target spelling written on `source` denotes: the interpreters try the spelling from
+    the source, from its parent, from the root, then prefixed with the machine id, and finally fall
+    back to the first state (document order) whose key equals the spelling."""
+    attempts = [(target, source)]
+    if source.parent is not None:
+        attempts.append((target, source.parent))
+    attempts += [(target, tree.root), ("%s.%s" % (tree.root.id, target), tree.root)]
+    for tgt, ref in attempts:
+        r = _resolve_once(tree, ref, tgt)
+        if r is not None:
+            return r
+    for n in tree.order:
+        if n.key == target:
+            return n
+    return None
